@@ -828,6 +828,17 @@ func postData(req *http.Request, logBody bool) (*PostData, error) {
 		pd.Text = string(body)
 	}
 
+	// Parameters have no encoding attribute in HAR: a name or value that is not
+	// valid UTF-8 would be mangled when the log is serialised. Such a body is
+	// logged as text, which is base64-encoded on export.
+	for _, p := range pd.Params {
+		if !utf8.ValidString(p.Name) || !utf8.ValidString(p.Value) || !utf8.ValidString(p.Filename) {
+			pd.Params = []Param{}
+			pd.Text = string(body)
+			break
+		}
+	}
+
 	return pd, nil
 }
 
